@@ -7,8 +7,15 @@
   mean equal content and the null ID means `max` zero bytes (digest collision-freeness on the
   chunks of this index).  Tie: behavioural correspondence `ip.ops` (seek/read/FUSE-read sequences
   with scripted store failures) plus a monitor replaying every op against the blob.
+
+  Several requests in flight on ONE handle of the mount (go-fuse serves each in its own goroutine):
+  `Model/MountHandle.lean`, a step machine over the shared reader and the handle's mutex whose
+  per-request program is the regenerated shape of `indexFileHandle.read`
+  (`gen_mount_handle_locked`, Properties/C09/GenMountHandle.lean); `concurrent_handle_reads_exact`
+  for every interleaving, `split_lock_violates` for the shape with two critical sections.
 -/
 import Desync.Proofs.ReadSeekerProofs
+import Desync.Proofs.MountHandleProofs
 
 namespace Desync.C09
 open Desync
@@ -59,6 +66,71 @@ theorem seek_spec {blob : Bytes} {ip : IdxPos} {fetch : Fetch}
     (seekTarget ip offset w < 0 → ip.seek offset w = .error .before) ∧
     (seekTarget ip offset w > blob.length → ip.seek offset w = .error .beyond) :=
   Desync.seek_spec hs hi offset w
+
+/-- **concurrent read requests on one handle**: `rq` are the requests `(offset, length)` in flight on
+    one handle of the index mount, each running `lock; Seek; Read; unlock` on the shared reader (the
+    shape of the real code, `gen_mount_handle_locked`).  For EVERY schedule (every interleaving of
+    their steps, of any length) and whatever the store does, a request that has returned has returned
+    something; data only if it is exactly `blob[off, off+len)` cut at the end of the blob, otherwise
+    EIO; with a store that does not fail, exactly those bytes for every offset inside the blob; EIO
+    for offsets beyond the end.  From the sequential `fuse_read_safe` / `fuse_read_exact`: the result
+    of each request is the result of one sequential FUSE read from some state of the reader that
+    satisfies the reader invariant. -/
+theorem concurrent_handle_reads_exact {blob : Bytes} {ip0 : IdxPos} {fetch : Fetch}
+    (hs : Setup blob ip0 fetch) (hi : Inv blob ip0) (rq : List MountHandle.Req) (calls : Nat)
+    (sched : List Nat) (r : Nat) (q : MountHandle.Req) (st : MountHandle.ReqSt)
+    (hq : rq[r]? = some q)
+    (hst : (MountHandle.runSched MountHandle.lockedShape fetch rq sched
+              (MountHandle.St.init ip0 calls rq.length)).reqs[r]? = some st)
+    (hdone : st.done MountHandle.lockedShape) :
+    (∃ o, st.res = some o) ∧
+    (∀ b, st.res = some (some b) → q.off ≤ blob.length ∧ b = (blob.drop q.off).take q.len) ∧
+    (NeverFails ip0 fetch → q.off ≤ blob.length →
+      st.res = some (some ((blob.drop q.off).take q.len))) ∧
+    (blob.length < q.off → st.res = some none) :=
+  MountHandle.good_spec hs (MountHandle.concurrent_reads hs hi rq calls sched r q st hq hst hdone)
+
+/-- no deadlock on the handle's mutex: in every state an interleaving can reach, while some request
+    has not returned, some request can take a step (and every step taken advances a program of four
+    operations, so every run in which requests that can move eventually do lets all of them return) -/
+theorem concurrent_handle_reads_progress {blob : Bytes} {ip0 : IdxPos} {fetch : Fetch}
+    (hs : Setup blob ip0 fetch) (hi : Inv blob ip0) (rq : List MountHandle.Req) (calls : Nat)
+    (sched : List Nat) (r : Nat) (q : MountHandle.Req) (st : MountHandle.ReqSt)
+    (hq : rq[r]? = some q)
+    (hst : (MountHandle.runSched MountHandle.lockedShape fetch rq sched
+              (MountHandle.St.init ip0 calls rq.length)).reqs[r]? = some st)
+    (hnd : ¬ st.done MountHandle.lockedShape) :
+    ∃ r', (MountHandle.step MountHandle.lockedShape fetch rq
+            (MountHandle.runSched MountHandle.lockedShape fetch rq sched
+              (MountHandle.St.init ip0 calls rq.length)) r').isSome :=
+  MountHandle.progress
+    (MountHandle.run_sinv hs sched _ (MountHandle.init_sinv (fetch := fetch) rq calls hi)) r q st hq hst hnd
+
+/-- **the seeded regression, decided**: with the critical section split in two (`lock; Seek; unlock;
+    lock; Read; unlock`) two requests on the two-chunk blob of `hypotheses_satisfiable` and the
+    schedule "request 0 seeks, request 1 seeks, request 0 reads" make request 0 return, with success,
+    the bytes at request 1's offset -/
+theorem split_lock_violates :
+    ((MountHandle.runSched MountHandle.splitShape MountHandle.exFetch MountHandle.exReqs
+        [0, 0, 0, 1, 1, 1, 0, 0, 0] (MountHandle.St.init MountHandle.exIp 0 2)).reqs[0]?.map
+        (fun st => (st.pc, st.res))) = some (6, some (some [12, 13])) ∧
+    (MountHandle.exBlob.drop 0).take 2 = [10, 11] := MountHandle.split_violates
+
+/-- the same when the mutex is held around the Seek only -/
+theorem seek_only_lock_violates :
+    ((MountHandle.runSched MountHandle.seekOnlyShape MountHandle.exFetch MountHandle.exReqs
+        [0, 0, 0, 1, 1, 1, 0] (MountHandle.St.init MountHandle.exIp 0 2)).reqs[0]?.map
+        (fun st => (st.pc, st.res))) = some (4, some (some [12, 13])) ∧
+    (MountHandle.exBlob.drop 0).take 2 = [10, 11] := MountHandle.seek_only_violates
+
+/-- non-vacuity of `concurrent_handle_reads_exact`: on that example (which satisfies `Setup`, `Inv`,
+    `NeverFails`: `hypotheses_satisfiable`) an interleaved schedule lets both requests return, with
+    their own bytes -/
+theorem concurrent_handle_example :
+    ((MountHandle.runSched MountHandle.lockedShape MountHandle.exFetch MountHandle.exReqs
+        [0, 0, 1, 0, 1, 0, 1, 1, 1, 1] (MountHandle.St.init MountHandle.exIp 0 2)).reqs.map
+        (fun st => (st.pc, st.res))) = [(4, some (some [10, 11])), (4, some (some [12, 13]))] :=
+  MountHandle.locked_example
 
 /-- non-vacuity: the hypotheses are jointly satisfiable (a concrete two-chunk index) -/
 theorem hypotheses_satisfiable :
